@@ -341,6 +341,8 @@ func genC28s(rng *rand.Rand, tier string, w *bufio.Writer) {
 		keyOf := map[any]string{}
 		last := map[any][]string{}
 		ids := map[string]int{}
+		inRemove := 0 // removals between their `dead` and their `rm` line
+		deadQ := map[any]bool{}
 		lk := lock.New()
 		qn := func(q any) int {
 			k, ok := queues[q]
@@ -378,10 +380,16 @@ func genC28s(rng *rand.Rand, tier string, w *bufio.Writer) {
 				log = append(log, fmt.Sprintf("deadq %s %d", keyOf[q], qn(q)))
 			case "lock.dead":
 				id, _ := args[1].(string)
+				inRemove++
+				deadQ[q] = true
 				log = append(log, fmt.Sprintf("dead %s %d %d", keyOf[q], qn(q), ids[id]))
 			case "lock.rm":
 				id, _ := args[1].(string)
 				f, _ := args[2].(bool)
+				if deadQ[q] {
+					delete(deadQ, q) // the `rm` line of the removal that logged `dead`
+					inRemove--
+				}
 				k, known := keyOf[q]
 				if !known {
 					k = "-"
@@ -393,6 +401,32 @@ func genC28s(rng *rand.Rand, tier string, w *bufio.Writer) {
 				log = append(log, fmt.Sprintf("rm %s %d %d %d c=%s", k, qn(q), ids[id], c14b(f), c))
 			}
 		})
+		// sample: a quiescent point.  Every worker has been joined; only watchdogs of short-TTL locks can still act.
+		// The map and the queues are counted while no hook event arrives AND no removal is between its `dead` line
+		// (logged before the map delete) and its `rm` line (logged after it).
+		sample := func() {
+			for try := 0; try < 2000; try++ {
+				time.Sleep(HxScale(3 * time.Millisecond))
+				mu.Lock()
+				before, mid := len(log), inRemove
+				mu.Unlock()
+				if mid > 0 {
+					continue
+				}
+				entries, queued := lock.VerifQueueCount(lk), 0
+				for k := 0; k < nkeys; k++ {
+					l, _, _ := lock.VerifSnapshot(lk, strconv.Itoa(k))
+					queued += len(l)
+				}
+				mu.Lock()
+				if len(log) == before && inRemove == 0 {
+					log = append(log, fmt.Sprintf("count %d %d", entries, queued))
+					mu.Unlock()
+					return
+				}
+				mu.Unlock()
+			}
+		}
 		type heldLock struct{ key, id string }
 		carry := make([][]heldLock, gor)
 		hung := false
@@ -419,7 +453,7 @@ func genC28s(rng *rand.Rand, tier string, w *bufio.Writer) {
 							cancel()
 							ctx, cancel = context.WithTimeout(context.Background(), time.Duration(100+lr.Intn(1500))*time.Microsecond)
 						}
-						ttl := 5 * time.Second
+						ttl := time.Minute
 						short := lr.Intn(4) == 0
 						if short {
 							ttl = time.Duration(lr.Intn(1500)-100) * time.Microsecond // sometimes ≤ 0
@@ -451,41 +485,35 @@ func genC28s(rng *rand.Rand, tier string, w *bufio.Writer) {
 			go func() { wg.Wait(); close(done) }()
 			select {
 			case <-done:
-			case <-time.After(20 * time.Second):
+			case <-time.After(HxScale(60 * time.Second)):
 				hung = true
 			}
 			if hung {
 				break
 			}
-			// quiescent point: no hook event may arrive while the map and the queues are counted
-			for try := 0; try < 200; try++ {
-				time.Sleep(3 * time.Millisecond)
-				mu.Lock()
-				before := len(log)
-				mu.Unlock()
-				entries, queued := lock.VerifQueueCount(lk), 0
-				for k := 0; k < nkeys; k++ {
-					l, _, _ := lock.VerifSnapshot(lk, strconv.Itoa(k))
-					queued += len(l)
-				}
-				mu.Lock()
-				if len(log) == before {
-					log = append(log, fmt.Sprintf("count %d %d", entries, queued))
-					mu.Unlock()
-					break
-				}
-				mu.Unlock()
-			}
+			sample()
 		}
 		for g := range carry {
 			for _, h := range carry[g] {
 				_ = lk.Unlock(h.key, h.id)
 			}
 		}
-		time.Sleep(3 * time.Millisecond)
-		mu.Lock()
-		log = append(log, fmt.Sprintf("count %d 0", lock.VerifQueueCount(lk)))
-		mu.Unlock()
+		if !hung {
+			// short-TTL locks are released by their watchdogs: give those (they may be late on a busy machine) the time
+			// to fire, then take the final sample — whatever is still queued then is counted, not assumed
+			for dl := time.Now().Add(HxScale(5 * time.Second)); time.Now().Before(dl); {
+				left := 0
+				for k := 0; k < nkeys; k++ {
+					l, _, _ := lock.VerifSnapshot(lk, strconv.Itoa(k))
+					left += len(l)
+				}
+				if left == 0 {
+					break
+				}
+				time.Sleep(time.Millisecond)
+			}
+			sample()
+		}
 		verifhook.SetHandler(nil)
 		fmt.Fprintf(w, "case %d\n", r)
 		mu.Lock()
@@ -496,6 +524,9 @@ func genC28s(rng *rand.Rand, tier string, w *bufio.Writer) {
 			fmt.Fprintln(w, "hang")
 		}
 		mu.Unlock()
+		if hung {
+			return // one hang is the verdict: do not spend the window again in every later round
+		}
 	}
 }
 
